@@ -8,6 +8,7 @@ import sys
 sys.path.insert(0, os.path.dirname(os.path.abspath(__file__)))
 sys.path.insert(0, os.environ.get('VERIF_REPO', '/repo'))
 
+import corpus  # noqa: E402
 import ctxplan  # noqa: E402
 import rec_ctx  # noqa: E402
 
@@ -43,6 +44,16 @@ def main():
                 continue
             rng = random.Random(f'{a.seed}:{b}')
             rec_ctx.drive(rec, table, b, fams, rng, exq, label_variant=lv)
+            if b % 3 == 0 and table.n * table.m <= 80 and hasattr(rec, 'ctx') and a.prop != 'C15':
+                # two live contexts with the SAME labels and different tables: build and query a sibling, then
+                # query the older object again (class-level / label-keyed state shared between instances)
+                sib = corpus.Table(table.n, table.m,
+                                   [[j for j in range(1, table.m + 1) if j not in set(r)] for r in table.rows],
+                                   table.tag + ':sibling')
+                rec_b = rec_ctx.CtxRecorder(emit, concepts)
+                rec_ctx.drive(rec_b, sib, b, fams, rng, False, nsub=3, nmulti=2, label_variant=lv)
+                rec_ctx.drive(rec, table, b, fams, rng, False, nsub=4, nmulti=2, label_variant=lv, construct=False)
+                del rec_b
             stats['behaviours'] += 1
             stats['exhaustive_tables'] += (table.tag[:2] == 'ex' and table.tag[2:3].isdigit())
             key = (table.n, table.m, tuple(map(tuple, table.rows)))
